@@ -9,6 +9,19 @@ import json, os, shutil, subprocess, sys, time
 VERIF = os.path.dirname(os.path.dirname(os.path.abspath(__file__)))
 ALL = "C01 C02 C03 C04 C05 C06 C07 C08 C09 C10 C11 C12 C13 C14 C15 C16 C17 C18 C19 C20".split()
 
+CHECK_TIMEOUT = 1200      # seconds per check: a runaway analysis is reported, not waited for
+
+
+def _run_check(cmd, **kw):
+    try:
+        return subprocess.run(cmd, **kw)
+    except subprocess.TimeoutExpired:
+        class _R:
+            returncode = 124
+            stdout = "ANALYSIS-BROKEN: the check did not finish within %d s\n" % CHECK_TIMEOUT
+            stderr = ""
+        return _R()
+
 
 def sh(cmd, **kw):
     return subprocess.run(cmd, shell=True, capture_output=True, text=True, **kw)
@@ -56,11 +69,11 @@ def main():
         res = {}
         env = dict(os.environ, FSVERIF_REPO=wt, FSVERIF_CACHE="/var/tmp/seedcache_%s" % prop,
                    FSVERIF_EVIDENCE="/var/tmp/seedevid_%s" % prop)
-        subprocess.run([os.path.join(VERIF, "check"), "C06"], capture_output=True, text=True, env=env, cwd=VERIF)  # warm the SIR cache
+        _run_check([os.path.join(VERIF, "check"), "C06"], capture_output=True, text=True, env=env, cwd=VERIF, timeout=CHECK_TIMEOUT)  # warm the SIR cache
         from concurrent.futures import ThreadPoolExecutor
 
         def one(c):
-            r = subprocess.run([os.path.join(VERIF, "check"), c], capture_output=True, text=True, env=env, cwd=VERIF)
+            r = _run_check([os.path.join(VERIF, "check"), c], capture_output=True, text=True, env=env, cwd=VERIF, timeout=CHECK_TIMEOUT)
             first = [l for l in r.stdout.splitlines() if l.startswith("  rule") or l.startswith("ANALYSIS")]
             return c, {"exit": r.returncode, "first": first[0][:260] if first else ""}
         with ThreadPoolExecutor(max_workers=6) as ex:
